@@ -48,6 +48,27 @@ def gen_case(rng, tier, index):
                            meta_modes=("none", "runs", "runs"),
                            simpool=True)
     hist["build_policy"] = rng.choice(S.POLICIES)
+    extra = rng.random()
+    split0 = hist["splits"][0]
+    if extra < 0.12:
+        # many shards relative to any read parallelism (more than 2T+2)
+        eps = hist["structure"]["eps"]
+        ids = iter(range(5 * 10**6, 6 * 10**6))
+        hist["sessions"].append({"kind": "root", "reopen": False, "writes": [
+            {"split": split0, "id": next(ids)}
+            for _ in range(eps * rng.randrange(9, 24) + rng.randrange(0, eps))
+        ]})
+        hist["many_shards"] = True
+    elif extra < 0.22:
+        # one multi-writer call with more than ten writers
+        ids = iter(range(5 * 10**6, 6 * 10**6))
+        hist["sessions"].append({
+            "kind": "multi", "reopen": False, "single_process": False,
+            "pool_seed": rng.getrandbits(32),
+            "writers": [[{"split": split0, "id": next(ids)}
+                         for _ in range(rng.randrange(1, 3))]
+                        for _ in range(rng.randrange(11, 14))]})
+        hist["many_writers"] = True
     readers = []
     for _ in range(rng.randrange(3, 6)):
         readers.append({
@@ -88,6 +109,10 @@ def run_case(case):
             stats["scheduler_decisions"] += env.build_sched.steps
             multi += env.build_sched.multi_decisions
             probes["writers_on_simulated_pool"] += 1
+        if hist.get("many_shards"):
+            probes["more_shards_than_any_read_window"] += 1
+        if hist.get("many_writers"):
+            probes["more_than_ten_writers_in_one_call"] += 1
         splits = [s for s in hist["splits"] if env.model.ids(s)]
         sample = {}
         for split in splits[:2]:
